@@ -136,19 +136,31 @@ def config_kwargs(optimizer, cfg_spec):
 
 def build_config(optimizer, cfg_spec):
     """-> (config object, repaired?)  Every config that reaches optimize() is one the library itself accepted:
-    if the validators refuse the perturbed algorithm parameters they are reverted to the documented values."""
+    algorithm parameters that the validators refuse are reverted to the documented values - first only the fields
+    the validation error names, then (model-level validators name none) all of them."""
     reg = registry.load()[optimizer]
     kw = config_kwargs(optimizer, cfg_spec)
-    try:
-        return reg["cfg_cls"](**kw), False
-    except ValidationError:
-        for k in list(kw):
-            if k not in registry.BASE_FIELDS:
-                if k in reg["params"]:
-                    kw[k] = reg["params"][k]
-                else:
-                    del kw[k]            # optional field of the config model: back to its default
-        return reg["cfg_cls"](**kw), True
+
+    def revert(k):
+        if k in reg["params"]:
+            kw[k] = reg["params"][k]
+        else:
+            kw.pop(k, None)              # optional field of the config model: back to its default
+
+    for _ in range(6):
+        try:
+            return reg["cfg_cls"](**kw), _ > 0
+        except ValidationError as e:
+            named = {str(err["loc"][0]) for err in e.errors() if err.get("loc")}
+            named = {k for k in named if k in kw and k not in registry.BASE_FIELDS}
+            if not named:
+                break
+            for k in named:
+                revert(k)
+    for k in list(kw):
+        if k not in registry.BASE_FIELDS:
+            revert(k)
+    return reg["cfg_cls"](**kw), True
 
 
 def build_optimizer(optimizer, cfg_spec):
